@@ -267,6 +267,21 @@ theorem layoutTiles_carries (qfs : List QFrame) (data : List UInt8) (base : Nat)
       carries data ((base : Int) + layoutLowest qfs).toNat [p] = true :=
   layoutTiles_build qfs data base ht hbl hn8 hrep
 
+/-- … with the representability condition exactly as the oracle evaluates it before it judges
+    `qf_carries` (`base + 65535 + |share| ≤ 2^62-1`): the monitor never fires outside the theorem -/
+theorem layoutTiles_carries_monitor_domain (qfs : List QFrame) (data : List UInt8) (base : Nat)
+    (ht : layoutTiles qfs data.length = true) (hbl : 0 ≤ (base : Int) + layoutLowest qfs)
+    (hb : base + 65535 + data.length ≤ maxVarInt8) :
+    ∃ p, qfBuild qfs data base = .ok p ∧
+      carries data ((base : Int) + layoutLowest qfs).toNat [p] = true := by
+  apply layoutTiles_carries qfs data base ht hbl (by omega)
+  intro off len hm
+  have hent := ((layoutTiles_iff qfs data.length).mp ht).1 _ hm
+  simp only [EntryOk] at hent
+  have hlow : layoutLowest qfs ≤ 65535 := by
+    rw [layoutLowest_eq]; exact (foldl_low_le (layoutOf' qfs) 65535).1
+  omega
+
 /-- non-vacuity: a two-frame layout out of order, rebased on offset 3, tiles a 5-byte share (a PING or PADDING entry
     would pull the rebasing offset to 0: `CryptoFrameInfo` reports offset 0 for them) -/
 example : layoutTiles [.crypto 5 0, .crypto 3 2] 5 = true ∧ layoutLowest [.crypto 5 0, .crypto 3 2] = 3 := by
